@@ -413,6 +413,13 @@ fn check_streaminfo(w: &Workload, r: &ExecResult) -> Option<String> {
     };
     let consumed = (r.outcome.handed_len / w.channels) as u64;
     let mut bad = vec![];
+    // "the MD5 of the input": a fault-free source must have been read to its end (everything after the
+    // blocks its owner read before the hand-over)
+    let pre: usize = w.plan_reads().iter().take(w.pre_reads).map(|p| p.len).sum();
+    let expected = (w.total_samples().saturating_sub(pre)) as u64;
+    if w.faults.is_empty() && consumed != expected {
+        bad.push(format!("the source holds {expected} more samples but only {consumed} were consumed (input not read to its end)"));
+    }
     if si.rate as usize != w.rate {
         bad.push(format!("sample_rate {} != {}", si.rate, w.rate));
     }
